@@ -20,7 +20,7 @@ fn filters() -> Vec<(&'static str, StreamFilter)> {
 fn ref_decode(name: &str, enc: &[u8]) -> Result<Vec<u8>, String> {
     match name {
         "ASCIIHex" => codec::hex_decode(enc),
-        "ASCII85" => codec::a85_decode(enc),
+        "ASCII85" => codec::a85_decode_strict(enc),
         "LZW" => codec::lzw_decode(enc, 0),
         "Flate" => codec::zlib_decode(enc),
         _ => unreachable!(),
